@@ -255,7 +255,7 @@ class Env:
     async def callback(self, which):
         n = len(self.callbacks)
         self.callbacks.append((ticks(self.loop.time()), which))
-        if self.scenario.get("callback_delay"):
+        if self.scenario.get("callback_delay") and which.split(":")[0] in self.scenario.get("callback_delay_kinds", ("conn", "ac", "zone", "system")):
             await asyncio.sleep(self.scenario["callback_delay"] * TICK)      # an application whose callbacks take their time (I/O of their own)
         if self.in_callback is not None:
             await self.in_callback(n, which)
@@ -312,7 +312,7 @@ def run(gen, scenario, moment=None, reinit=False, idle=8000):
     env = Env(gen, scenario)
     loop = env.loop
     loop.max_passes = 3_000_000
-    obs = {"gen": gen, "moment": moment}
+    obs = {"gen": gen, "moment": moment, "idle": idle}
 
     async def patched_open(host, port, **kw):
         return await env._orig_open(host, port, **kw)
@@ -421,6 +421,9 @@ def run(gen, scenario, moment=None, reinit=False, idle=8000):
         n_events = len(env.events)
         n_notif = len(env.notifications)
         obs["t_returned"] = ticks(loop.time())
+        me0 = asyncio.current_task()
+        obs["tasks_at_return"] = sorted(getattr(t.get_coro(), "__qualname__", str(t.get_coro())) for t in asyncio.all_tasks(loop)
+                                        if t is not me0 and not t.done() and t is not init_task)
         await asyncio.sleep(idle * TICK)
         me = asyncio.current_task()
         alive = [t for t in asyncio.all_tasks(loop) if t is not me and not t.done() and t is not init_task]
@@ -457,6 +460,7 @@ def run(gen, scenario, moment=None, reinit=False, idle=8000):
             obs["reinit_result"] = r
             obs["reinit_view"] = view_at(at)
             await asyncio.sleep(2500 * TICK)         # past one heartbeat interval
+            obs["reinit_requests"] = [q[2] for q in env.console.requests[n0:n0 + 12]]
             obs["reinit_heartbeats"] = sum(1 for q in env.console.requests[n0:] if q[2] == (0x1F, 0x30))
             # AirTouch 4: the console pushes no group status in these scenarios, so the 300 s silence poll is due once in the 312 s
             # (one request belongs to the handshake)
